@@ -277,23 +277,37 @@ def rule_line_reset(ctx):
         return out
 
     line_keys, col_keys = set(), set()
-    for m in members:
+    # the Mapping may be built by a (free) helper function the decoder calls: those belong to the search scope
+    scope, frontier = list(members), list(members)
+    for _ in range(2):
+        nxt = []
+        for m in frontier:
+            for cpt, ct in m.calls():
+                cc = ct.get('callee')
+                hb = f.body(cc.get('resolved') or cc['path']) if cc else None
+                if hb is not None and hb.promoted is None and hb not in scope:
+                    scope.append(hb)
+                    nxt.append(hb)
+        frontier = nxt
+
+    def roles_of(m, e, depth=0):
+        rl = expr_roles(e)
+        if not rl and depth < 3:
+            # built from the function's parameters: take the callers' actual arguments
+            for x in walk(e):
+                if x[0] == 'arg' and x[3] == m.key:
+                    for cm in scope:
+                        for cpt, ct in cm.calls():
+                            cc = ct.get('callee')
+                            if cc and (cc.get('resolved') or cc['path']) == m.key and x[1] - 1 < len(ct['args']):
+                                rl |= roles_of(cm, cm.expr_of_operand(ct['args'][x[1] - 1]), depth + 1)
+        return rl
+    for m in scope:
         for pt, s in m.points():
             if s['k'] == 'assign' and s['r']['k'] == 'agg' and s['r'].get('path') == mp:
                 ops = dict(zip(s['r']['fields'], s['r']['ops']))
                 for fld, keys in (('generated_line', line_keys), ('generated_column', col_keys)):
-                    e = m.expr_of_operand(ops[fld])
-                    rl = expr_roles(e)
-                    if not rl:
-                        # built in a helper from its parameters: take the callers' actual arguments
-                        for x in walk(e):
-                            if x[0] == 'arg' and x[3] == m.key:
-                                for cm in members:
-                                    for cpt, ct in cm.calls():
-                                        cc = ct.get('callee')
-                                        if cc and (cc.get('resolved') or cc['path']) == m.key and x[1] - 1 < len(ct['args']):
-                                            rl |= expr_roles(cm.expr_of_operand(ct['args'][x[1] - 1]))
-                    keys |= rl
+                    keys |= roles_of(m, m.expr_of_operand(ops[fld]))
     if len(line_keys) != 1 or len(col_keys) != 1:
         r.violation('decoder-roles', b.span(), b.path, 'cannot identify the line / column state of the decoder (%s / %s)' % (line_keys, col_keys),
                     reason='unrecognised-idiom')
@@ -374,3 +388,283 @@ def rule_line_reset(ctx):
                                 'are encoded relative to the previous line')
     r.check_floor()
     return r
+
+
+def rule_enc_dedup(ctx):
+    """the full encoder's "same original location: skip the segment" shortcut looks at every piece of per-segment state it records"""
+    f = ctx.facts()
+    r = RuleResult('ENC-DEDUP', 'an encoder may skip a mapped segment as a repetition of the previous one only after comparing, for every '
+                                'field of the original location from which it records per-segment state (source, line, column, name), '
+                                'that field with that state: the guard of the skip reads the field and a state field derived from it')
+    r.floor = 1
+    ol = anchors.adt_by_name(f, 'OriginalLocation')
+    ol_fields = [fl['name'] for fl in anchors.fields(ol)]
+    tr = anchors.trait_path(f, 'MappingsEncoder')
+    encs = [b for b in f.body_list if b.promoted is None and b.d['kind'] != 'Closure' and b.d.get('impl_trait') == tr and b.name == 'encode']
+    if not encs:
+        raise anchors.AnchorMissing('no MappingsEncoder::encode implementation')
+    for m in encs:
+        adt = m.d.get('impl_adt')
+        group = [m] + f.closures_of(m)
+
+        def helpers_called(body, blocks=None):
+            out = []
+            for pt, t in body.calls():
+                if blocks is not None and pt[0] not in blocks:
+                    continue
+                c = t.get('callee')
+                hb = f.body(c.get('resolved') or c['path']) if c else None
+                if hb is not None and hb.d['kind'] != 'Closure' and hb.key != m.key:
+                    out.append((pt, t, hb))
+            return out
+        # buffer writes: std byte sources, or crate-local functions that (transitively) contain one
+        def writes(body, depth=0):
+            for pt, t in body.calls():
+                c = t.get('callee')
+                if c and c['name'] in BYTE_SOURCES and len(t['args']) == 2 and 'Vec<u8>' in (t.get('arg_tys') or [''])[0]:
+                    return True
+            if depth < 2:
+                for pt, t, hb in helpers_called(body):
+                    if writes(hb, depth + 1):
+                        return True
+            return False
+        stops = set()
+        for pt, t in m.calls():
+            c = t.get('callee')
+            if c and c['name'] in BYTE_SOURCES and len(t['args']) == 2 and 'Vec<u8>' in (t.get('arg_tys') or [''])[0]:
+                stops.add(pt[0])
+            hb = f.body(c.get('resolved') or c['path']) if c else None
+            if hb is not None and hb.d['kind'] != 'Closure' and writes(hb):
+                stops.add(pt[0])
+            if c and any(x[0] == 'agg' and x[1] == 'closure' and f.body(x[2]) is not None and writes(f.body(x[2]))
+                         for a in t['args'] for x in walk(m.expr_of_operand(a))):
+                stops.add(pt[0])
+        fwd = m.reachable(0, blocked=stops)
+        skip_returns = [bb for bb in m.return_blocks() if bb in fwd]
+        back, st = set(), list(skip_returns)
+        while st:
+            x = st.pop()
+            if x in back or x in stops:
+                continue
+            back.add(x)
+            st.extend(p_ for p_ in m.preds(x))
+        region = fwd & back
+        # bodies whose reads belong to the guard: closures created / helpers called inside the region
+        guard_bodies = []
+        for pt, s in m.points():
+            if pt[0] in region and s['k'] == 'assign' and s['r']['k'] == 'agg' and s['r'].get('ak') == 'closure':
+                cb = f.body(s['r'].get('path'))
+                if cb is not None:
+                    guard_bodies.append(cb)
+        for pt, t, hb in helpers_called(m, region):
+            guard_bodies.append(hb)
+        for gb in list(guard_bodies):
+            for pt, t, hb in helpers_called(gb):
+                if hb not in guard_bodies:
+                    guard_bodies.append(hb)
+
+        def reads(body, blocks=None):
+            olr, str_ = set(), set()
+            for pt, role, pl, node in body.places():
+                if blocks is not None and pt[0] not in blocks:
+                    continue
+                for x in pl['pr']:
+                    if isinstance(x, dict) and x.get('o') == ol['path'] and x.get('n') in ol_fields:
+                        olr.add(x['n'])
+                    if isinstance(x, dict) and x.get('o') == adt and 'n' in x and role != 'write':
+                        str_.add(x['n'])
+            return olr, str_
+        g_ol, g_state = reads(m, region)
+        for gb in guard_bodies:
+            a, b_ = reads(gb)
+            g_ol |= a
+            g_state |= b_
+        if not g_ol:
+            r.site('%s: no skip that depends on the original location' % m.path, m.span(), 'ok')
+            continue
+        # per-segment state derived from each field of the original location (value flow, or a constant stored under its discriminant)
+        derived = {}
+        for body in group:
+            for pt, s in body.points():
+                tgt, val = None, None
+                if s['k'] == 'assign' and s['p']['pr']:
+                    last = [x for x in s['p']['pr'] if isinstance(x, dict) and x.get('o') == adt and 'n' in x]
+                    if last and 'Vec<u8>' in (s['p'].get('ty') or ''):
+                        last = []
+                    if last:
+                        tgt = last[-1]['n']
+                        val = body.expr_of_operand(s['r']['o']) if s['r']['k'] == 'use' else \
+                            (body.expr_of_local(s['p']['l']) if False else None)
+                        if s['r']['k'] != 'use':
+                            ops = [s['r'].get('o'), s['r'].get('a'), s['r'].get('b')] + list(s['r'].get('ops') or [])
+                            val = ('tuple',) + tuple(body.expr_of_operand(o) for o in ops if isinstance(o, dict) and 'k' in o)
+                        flds = {x[2] for x in walk(val) if x[0] == 'field' and x[3] == ol['path']} if val else set()
+                        if s['r']['k'] == 'use' and s['r']['o']['k'] == 'const':
+                            # control dependence: a constant stored under a test of a field of the original location
+                            # (only tests of the *presence* of an optional field: a discriminant read)
+                            for d in body.dom().get(pt[0], set()):
+                                t = body.term(d)
+                                if t['k'] == 'switch' and t['d']['k'] in ('copy', 'move') and not t['d']['p']['pr']:
+                                    dd = body.whole_defs(t['d']['p']['l'])
+                                    if len(dd) == 1 and dd[0][1] == 'assign' and dd[0][2]['r']['k'] == 'discr':
+                                        prs = _discr_projs(body, dd[0][2]['r']['p'])
+                                        if prs and isinstance(prs[-1], dict) and prs[-1].get('o') == ol['path']:
+                                            flds.add(prs[-1].get('n'))
+                        for fl in flds:
+                            derived.setdefault(fl, set()).add(tgt)
+                elif s['k'] == 'call':
+                    # a helper that receives `&mut self.state` together with a value read from the original location
+                    c = s.get('callee')
+                    if c and f.body(c.get('resolved') or c['path']) is not None:
+                        muts, flds = set(), set()
+                        for a in s['args']:
+                            e = body.expr_of_operand(a)
+                            if a['k'] in ('copy', 'move') and (body.local_ty(a['p']['l']) if not a['p']['pr'] else '').startswith('&mut'):
+                                if 'Vec<u8>' not in body.local_ty(a['p']['l']):
+                                    muts |= {x[2] for x in walk(e) if x[0] == 'field' and x[3] == adt}
+                            else:
+                                flds |= {x[2] for x in walk(e) if x[0] == 'field' and x[3] == ol['path']}
+                        for fl in flds:
+                            for sname in muts:
+                                derived.setdefault(fl, set()).add(sname)
+        for fl in ol_fields:
+            ds = derived.get(fl, set())
+            if not ds:
+                continue
+            ok = fl in g_ol and bool(ds & g_state)
+            r.site('%s: the skip compares `%s` with the state recorded from it (%s)' % (m.path, fl, ', '.join(sorted(ds))), m.span(),
+                   'ok' if ok else 'violation')
+            if not ok:
+                r.violation('%s:%s' % (m.path, fl), m.span(), m.path,
+                            'the encoder skips a mapped segment as "same as the previous one" without comparing `%s` with the state it '
+                            'records from it (%s): a segment that differs only there is swallowed and its text inherits the previous '
+                            'segment\'s %s' % (fl, ', '.join(sorted(ds)), fl))
+    r.check_floor()
+    return r
+
+
+def rule_enc_omit(ctx):
+    """a delta field of a mapped segment is written as a literal / left to a shortcut only when the value equals the encoder state"""
+    f = ctx.facts()
+    r = RuleResult('ENC-OMIT', 'in a mapped segment, a field whose value the encoder tracks (source index, original line, original column) '
+                               'is either written as a delta against that state, or the path has passed the equality test of the new '
+                               'value with the state (== state, or == state + 1 for the "next line" shortcut): no shortcut emits constant '
+                               'digits for a field it has not compared')
+    r.floor = 3
+    ol = anchors.adt_by_name(f, 'OriginalLocation')
+    mp = anchors.adt_by_name(f, 'Mapping')
+    plain = [fl['name'] for fl in anchors.fields(ol) if fl['ty'] == 'u32']
+    tr = anchors.trait_path(f, 'MappingsEncoder')
+    encs = [b for b in f.body_list if b.promoted is None and b.d['kind'] != 'Closure' and b.d.get('impl_trait') == tr and b.name == 'encode']
+    if not encs:
+        raise anchors.AnchorMissing('no MappingsEncoder::encode implementation')
+
+    def ol_fields_of(e):
+        return {x[2] for x in walk(e) if x[0] == 'field' and x[3] == ol['path'] and x[2] in plain}
+
+    for m in encs:
+        adt = m.d.get('impl_adt')
+
+        def state_fields_of(e):
+            return {x[2] for x in walk(e) if x[0] == 'field' and x[3] == adt}
+        # 1. delta writers: crate-local calls that get a value read from the original location and the state it is relative to
+        enc_sites = {}     # state field -> (ol field, set(blocks))
+        writes = set()
+        for pt, t in m.calls():
+            c = t.get('callee')
+            if c and c['name'] in BYTE_SOURCES and len(t['args']) == 2 and 'Vec<u8>' in (t.get('arg_tys') or [''])[0]:
+                writes.add(pt[0])
+            hb = f.body(c.get('resolved') or c['path']) if c else None
+            if hb is None or hb.d['kind'] == 'Closure':
+                continue
+            writes.add(pt[0])
+            es = [m.expr_of_operand(a) for a in t['args']]
+            vals, states = set(), set()
+            for e in es:
+                vals |= ol_fields_of(e)
+                states |= {s_ for s_ in state_fields_of(e) if 'Vec<u8>' not in _field_ty(f, adt, s_)}
+            if len(vals) == 1 and len(states) == 1:
+                S, F = next(iter(states)), next(iter(vals))
+                enc_sites.setdefault(S, (F, set()))[1].add(pt[0])
+        # 2. equality tests between the same pair
+        eq_edges = {}
+        for bi in range(len(m.blocks)):
+            t = m.term(bi)
+            if t['k'] != 'switch' or t['d']['k'] not in ('copy', 'move') or t['d']['p']['pr']:
+                continue
+            ds = m.whole_defs(t['d']['p']['l'])
+            if len(ds) != 1 or ds[0][1] != 'assign' or ds[0][2]['r']['k'] != 'bin' or ds[0][2]['r']['op'] != 'Eq':
+                # `checked_add(1) == Some(x)` and friends compare through PartialEq::eq
+                if len(ds) == 1 and ds[0][1] == 'call' and (ds[0][2].get('callee') or {}).get('name') == 'eq':
+                    a_, b_ = [m.expr_of_operand(x) for x in ds[0][2]['args'][:2]]
+                else:
+                    continue
+            else:
+                a_, b_ = m.expr_of_operand(ds[0][2]['r']['a']), m.expr_of_operand(ds[0][2]['r']['b'])
+            for S, (F, _) in enc_sites.items():
+                if (F in ol_fields_of(a_) and S in state_fields_of(b_)) or (F in ol_fields_of(b_) and S in state_fields_of(a_)):
+                    zero = [tb for v, tb in t['targets'] if v == 0]
+                    true_t = t['otherwise'] if zero else None
+                    if true_t is not None and true_t not in zero:
+                        eq_edges.setdefault(S, set()).add(true_t)
+        # 3. the mapped region: blocks under the Some edge of the test of `mapping.original`
+        mapped = set()
+        for bi in range(len(m.blocks)):
+            t = m.term(bi)
+            if t['k'] != 'switch' or t['d']['k'] not in ('copy', 'move') or t['d']['p']['pr']:
+                continue
+            ds = m.whole_defs(t['d']['p']['l'])
+            if len(ds) == 1 and ds[0][1] == 'assign' and ds[0][2]['r']['k'] == 'discr':
+                prs = _discr_projs(m, ds[0][2]['r']['p'])
+                if prs and isinstance(prs[-1], dict) and prs[-1].get('o') == mp['path'] and prs[-1].get('n') == 'original':
+                    some_t = [tb for v, tb in t['targets'] if v == 1] or ([t['otherwise']] if all(v == 0 for v, _ in t['targets']) else [])
+                    for st_ in some_t:
+                        mapped |= {x for x in range(len(m.blocks)) if x == st_ or st_ in m.dom().get(x, set())}
+        if not mapped:
+            r.violation('%s:mapped-region' % m.path, m.span(), m.path, 'cannot find the test of `mapping.original` in the encoder '
+                        '(unrecognised idiom, fail-closed)', reason='unrecognised-idiom')
+            continue
+        wm = writes & mapped
+        for S, (F, blocks) in sorted(enc_sites.items()):
+            blocked = blocks | eq_edges.get(S, set())
+            fwd = m.reachable(0, blocked=blocked)
+            bad = None
+            for w in sorted(wm & fwd):
+                if any(rb in m.reachable(w, blocked=blocked) for rb in m.return_blocks()):
+                    bad = w
+                    break
+            ok = bad is None
+            r.site('%s: `%s` is written relative to `%s`, or skipped only after comparing them' % (m.path, F, S), m.span(), 'ok' if ok else 'violation')
+            if not ok:
+                tt = m.term(bad)
+                r.violation('%s:%s' % (m.path, S), tt.get('s') or m.span(), m.path,
+                            'a mapped segment can be written on a path that neither encodes `%s` against `%s` nor has compared them: a '
+                            'shortcut emits constant digits for a field that may have changed (e.g. the "same file, next line" form '
+                            'used across a file switch), so positions are attributed to the wrong %s' % (F, S, F))
+    r.check_floor()
+    return r
+
+
+def _discr_projs(m, pl, depth=0):
+    """projection list of the place a discriminant is read from, looking through reference temporaries (`_3 = &(*m).original`)"""
+    prs = [x for x in pl['pr'] if x != '*']
+    if prs or depth > 3:
+        return prs
+    ds = m.whole_defs(pl['l'])
+    if len(ds) == 1 and ds[0][1] == 'assign':
+        r = ds[0][2]['r']
+        if r['k'] in ('ref', 'addr'):
+            return _discr_projs(m, r['p'], depth + 1)
+        if r['k'] == 'use' and r['o']['k'] in ('copy', 'move'):
+            return _discr_projs(m, r['o']['p'], depth + 1)
+    if len(ds) == 1 and ds[0][1] == 'call' and (ds[0][2].get('callee') or {}).get('name') in ('as_ref', 'as_mut', 'deref', 'as_deref') \
+            and ds[0][2]['args'] and ds[0][2]['args'][0]['k'] in ('copy', 'move'):
+        return _discr_projs(m, ds[0][2]['args'][0]['p'], depth + 1)
+    return prs
+
+
+def _field_ty(f, adt, name):
+    for fl in anchors.fields(f.adts[adt]):
+        if fl['name'] == name:
+            return fl['ty']
+    return ''
